@@ -1130,7 +1130,7 @@ impl CWIL {
     }
 
     pub(crate) fn add_limit(&mut self, mut limit: u128, block: usize) -> u128 {
-        limit = limit.strict_add(self.local_count);
+        limit = limit.saturating_add(self.local_count);
 
         match self.limits.last() {
             Some((inner_limit, _)) if *inner_limit <= limit => {}
